@@ -349,11 +349,12 @@ def se_diff(m, r, path=''):
 
 
 # --------------------------------------------------------------------- leaves
-def log_event(lid, circuit, data):
+def log_event(lid, circuit, data, tag=None):
     f = os.environ.get('C11_LOGFILE')
     if f and G['log'] is None:
         pt = data._data.get('point')
-        rec = {'leaf': lid, 'point': None if pt is None else [int(pt[0]), int(pt[1])],
+        rec = {'leaf': lid, 'tag': tag,
+               'point': None if pt is None else [int(pt[0]), int(pt[1])],
                'nops': circuit.num_operations, 'pid': os.getpid()}
         fd = os.open(f, os.O_WRONLY | os.O_APPEND | os.O_CREAT)
         os.write(fd, (json.dumps(rec) + '\n').encode())
@@ -418,12 +419,13 @@ def apply_act(a, circuit, data):
 class ActLeaf(BasePass):
     """A leaf pass: logs itself with the state it sees, then edits."""
 
-    def __init__(self, lid, acts):
+    def __init__(self, lid, acts, tag=None):
         self.lid = lid
         self.acts = acts
+        self.tag = tag        # which case (stragglers of cancelled jobs log late)
 
     async def run(self, circuit, data):
-        log_event(self.lid, circuit, data)
+        log_event(self.lid, circuit, data, self.tag)
         for a in self.acts:
             apply_act(a, circuit, data)
 
@@ -574,7 +576,7 @@ def mk_tree(t, case):
     from bqskit.passes.control.foreach import ClearAllBlockData
     k = t[0]
     if k == 'leaf':
-        return ActLeaf(t[1], case['leaves'][t[1]])
+        return ActLeaf(t[1], case['leaves'][t[1]], case.get('tag'))
     if k == 'seq':
         return Workflow([mk_tree(x, case) for x in t[1]])
     if k == 'ite':
@@ -1192,7 +1194,7 @@ NAMED = ['always', 'less-than', 'less-than-multi', 'less-than-many',
 def gen_control_case(rng):
     nq = rng.randint(1, 4)
     g = CaseGen(rng, nq)
-    tree = g.tree(rng.randint(1, 4))
+    tree = g.tree(rng.randint(2, 4))
     circ = g_circuit(rng, nq, rng.randint(0, 6), pblock=0.25)
     return g.case(tree, circ, g_pdata(rng, nq), 'control')
 
@@ -1625,7 +1627,8 @@ def oracle_control(ck, rng, n):
         circuit, data = build_real(case)
         out, log, left = run_real(case, circuit, data)
         got = [lid for lid, _ in log]
-        ck.count(('ctl', t_tree(tree), tuple(script[:len(script) - len(s2)])))
+        ck.count(('ctl', t_tree(tree), tuple(script[:len(script) - len(s2)])),
+                 nontrivial=len(want) >= 1)
         ck.bump('oracle_control_trace_len', str(min(len(want), 10)))
         if out != 'ok' or got != want or list(left) != [bool(b) for b in s2]:
             ck.violation(
@@ -2064,7 +2067,7 @@ def gen_runtime_case(rng, kind):
         ws = []
         for i in range(n):
             lid = len(g.leaves)
-            g.leaves[lid] = ([] if i == fast else [('sleep', 2.5)]) + [
+            g.leaves[lid] = ([] if i == fast else [('sleep', 1.5)]) + [
                 ('push', TRACE_KEY, lid), ('put', 'winner', i),
                 ('append', g_plain_op(rng, nq, 2))]
             ws.append(('leaf', lid))
@@ -2114,7 +2117,7 @@ def real_runtime_cases(ck, rng, n, tables, max_wait):
                         if compiler is not None:
                             compiler.close()
                         compiler = Compiler(num_workers=2)
-                    open(logf.name, 'w').close()
+                    case['tag'] = len(results)
                     wf = mk_tree(case['tree'], case)
                     try:
                         oc, od = compiler.compile(circuit.copy(), wf,
@@ -2127,7 +2130,8 @@ def real_runtime_cases(ck, rng, n, tables, max_wait):
                                   str(e)[-300:], repr(e.__cause__)[-300:],
                                   flush=True)
                     with open(logf.name) as f:
-                        log = [json.loads(l) for l in f if l.strip()]
+                        log = [r for r in (json.loads(l) for l in f if l.strip())
+                               if r.get('tag') == case['tag']]
                     results.append((oc, od, out, log))
             finally:
                 if compiler is not None:
@@ -2195,8 +2199,8 @@ def run(ck):
         proved = ck.lean_obligations()
     rng = ck.rng
     thorough = ck.tier == 'thorough'
-    n_control = 2500 if thorough else 260
-    n_foreach = 1500 if thorough else 160
+    n_control = 2500 if thorough else 220
+    n_foreach = 1500 if thorough else 130
     n_malformed = 200 if thorough else 30
     dev = float(os.environ.get('C11_DEV_SCALE', '1'))     # development only
     n_control, n_foreach, n_malformed = (int(n_control * dev), int(n_foreach * dev),
@@ -2228,7 +2232,7 @@ def run(ck):
             continue
         out, log, left = run_real(case, circuit, data)
         ck.count((case['kind'], t_tree(case['tree']), json.dumps(case['circ']),
-                  tuple(case['script'])))
+                  tuple(case['script'])), nontrivial=len(log) >= 1)
         ck.bump('outcomes', case['kind'] + ':' + ('ok' if out == 'ok' else 'raised'))
         ck.bump('trace_len', str(min(len(log), 12)))
         ck.coverage['traces_validated_against_impl'] += 1
@@ -2245,10 +2249,10 @@ def run(ck):
     oracle_decisions(ck, rng, 300 if thorough else 60)
     oracle_foreach(ck, rng, 600 if thorough else 100, tables)
 
-    for c_, d_ in batch_replace_cases(ck, rng, 2000 if thorough else 250):
+    for c_, d_ in batch_replace_cases(ck, rng, 2000 if thorough else 150):
         disagreements.append((dict(c_, tree=('leaf', 0)), d_))
     disagreements += real_runtime_cases(
-        ck, rng, 60 if thorough else 12, tables,
+        ck, rng, 60 if thorough else 9, tables,
         int(os.environ.get('C11_RT_WAIT', 900 if thorough else 45)))
 
     for case, d in disagreements[:5]:
@@ -2265,10 +2269,22 @@ def run(ck):
             {'broken': 'BqVerif.Props.C11', 'log': ck.proof_failure,
              'tables': tables}, found_input=False)
     ck.coverage['rule'] = (
-        'each case = one pass tree run on one circuit/PassData/script through '
-        'the real control passes and the Lean interpreter; compared: outcome, '
-        'executed leaves with the state each saw, final circuit, all PassData '
-        'fields (block data recursively), script consumption')
+        'each case = one generated pass tree (depth <= 4, all nine constructs, '
+        'real And/Or/Not/Width/GateCount/Change and scripted predicates) run on '
+        'one generated circuit (1-5 qudits, circuit-gate blocks at sorted and '
+        'unsorted locations, blocks alone in a cycle via insert, nested blocks) '
+        'with one generated PassData (model with possibly uncoupled qudits, '
+        'placement, mappings, seed, error, pass-down keys) and one script, '
+        'through the real control passes and the Lean interpreter; compared: '
+        'outcome, executed leaves with the state each saw, final circuit, all '
+        'PassData fields (block data recursively), script consumption. '
+        'Further case families: malformed (invalid placement, unknown filter, '
+        'empty circuit, raising body), direct batch_replace calls (same / other '
+        'locations / malformed points), real-Compiler runs, and the direct '
+        'oracles (reference interpreter, restore snapshots, decisions, '
+        'foreach write-back / sub-model / error bound). distinct = distinct '
+        '(family, tree, circuit, script or arguments); non-trivial = at least '
+        'one leaf pass executed (control families) / every case (others)')
     ck.assumptions += [
         'leaf passes, predicates, two-circuit callables and filters are the '
         'harness-defined ones (the model is parametric in them)',
